@@ -1,7 +1,7 @@
 """Per-property checks.  Every check = model checking of the design (TLC) +
 spec->impl replay + impl->spec trace validation, verdict by the property's own
 predicate (PlanProps / ShredTrace invariants)."""
-import json, os
+import json, os, re, shutil
 from vlib import *  # noqa
 
 EXTRA_MODULES = []
@@ -455,7 +455,35 @@ def check_C14(ctx):
     exec_s2i(ctx, "C14", panics=1, times="{3}" if ctx.quick() else "{1,3}", maxforce=1500 if ctx.quick() else 20000)
 
 
+def apalache(ctx, module, init, inv, length, cinit="ConstInit", timeout=900):
+    """One Apalache run; returns 'NoError' | 'Error' (a counterexample exists)."""
+    outd = ctx.fresh("apa", "d")
+    r = sh(["apalache-mc", "check", "--cinit=" + cinit, "--init=" + init, "--inv=" + inv, "--length=%d" % length,
+            "--out-dir=" + outd, os.path.join(SPEC, module + ".tla")], cwd=ctx.work, timeout=timeout)
+    m = re.search(r"The outcome is: (\w+)", r.stdout)
+    shutil.rmtree(outd, ignore_errors=True)
+    if not m:
+        raise ToolError("apalache-mc gave no outcome for %s/%s:\n%s" % (module, inv, r.stdout[-1500:]))
+    return m.group(1)
+
+
 def check_C15(ctx):
+    # unbounded call sequences: an inductive invariant of Async.tla discharged by Apalache (symbolic),
+    # with negative controls showing that the induction hypothesis is satisfiable
+    obligations = [("Init", "IndInv", 0, "NoError", "Init => IndInv"),
+                   ("IndInit", "IndInv", 1, "NoError", "IndInv /\\ Next => IndInv'"),
+                   ("IndInit", "Consequences", 0, "NoError", "IndInv => InvC15owned /\\ InvC15running /\\ InvC15noOverlap /\\ InvC15tl"),
+                   ("IndInit", "SanityInflight", 0, "Error", "negative control: IndInit has a state with a job in flight"),
+                   ("IndInit", "SanityWaiting", 0, "Error", "negative control: IndInit has a state inside wait() after two dispatches")]
+    done = []
+    for (init, inv, length, want, what) in obligations:
+        got = apalache(ctx, "AsyncInd", init, inv, length)
+        if got != want:
+            raise ToolError("Apalache: %s: expected %s, got %s (the inductive invariant of the Async MODEL is to be repaired)" % (what, want, got))
+        done.append({"obligation": what, "outcome": got})
+    ctx.cov["model_runs"].append({"module": "AsyncInd (Apalache 0.58, symbolic)", "constants": {"NSys": 3, "NTl": 2},
+                                  "inductive_invariant_obligations": done,
+                                  "meaning": "the C15 safety invariants of Async.tla hold for call sequences of ANY length"})
     (ns, nt, mc) = (3, 2, 6) if ctx.quick() else (4, 2, 8)
     cfg = "\n".join(["SPECIFICATION Fair", "CHECK_DEADLOCK FALSE", "CONSTANTS", "  NSys = %d" % ns, "  NTl = %d" % nt,
                      "  MaxCalls = %d" % mc, "INVARIANTS", "  InvC15owned", "  InvC15running", "  InvC15noOverlap", "  InvC15tl",
